@@ -14,7 +14,7 @@ fn i32_array(store: &[i32; 2], bm: Option<&[u8; 1]>) -> PrimitiveArray<Int32Type
 // picks (array, row) (symbolic, in range): output row k == values[pick_k.0][pick_k.1], null iff that
 // source row is null. The typed core takes &[&dyn Array] and returns ArrayRef, so the harness has to go
 // through dyn dispatch (as_any / downcast) on both sides.
-// @unit name=interleave_i32_2x2 props=C03 kind=bounded bound=arrays=2_rows=2_picks=2_validity_on_first_array_only fns=interleave_primitive,Interleave::new tier=thorough timeout=900 mem=10 note=not_confirmed_at_checkpoint
+// @unit name=interleave_i32_2x2 props=C03 kind=bounded bound=arrays=2_rows=2_picks=2_validity_on_first_array_only fns=interleave_primitive,Interleave::new timeout=900 mem=10 tier=thorough note=not_confirmed_not_run
 #[kani::proof]
 #[kani::unwind(8)]
 #[kani::stub(alloc::fmt::format, stub_format)]
